@@ -70,7 +70,283 @@ def cases(tier, seed):
   nf = 4 if tier == "quick" else 24
   for i in range(nf):
     out.append({"id": f"wakeorder{seed}_{i}", "kind": "wakeorder", "seed": seed * 100000 + 9000 + i, "mode": "perm", "weight": 5})
+  # constraints that appear at run time between trees that are already asleep (see eqwake_scene)
+  ne = 14 if tier == "quick" else 160
+  for i in range(ne):
+    out.append(
+      {"id": f"eqwake{seed}_{i}", "kind": "eqwake", "seed": seed * 100000 + 20000 + i, "steps": 260 if tier == "quick" else 900, "entry": "step" if i % 4 == 3 else "split", "weight": 2}
+    )
+  for i in range(2 if tier == "quick" else 16):
+    out.append({"id": f"eqsched{seed}_{i}", "kind": "eqsched", "seed": seed * 100000 + 26000 + i, "steps": 150 if tier == "quick" else 500, "mode": "perm", "weight": 3})
   return out
+
+
+# ------------------------------------------------------------------------------------------ run-time link scenes
+
+EQW_TREES = ("sx", "sxz", "free", "hinge", "chain")
+EQW_LINKS = (
+  "connect_body", "connect_site", "weld_body", "weld_site", "joint", "joint_single", "connect_world", "connect_world_site",
+  "limit_fixed", "limit_spatial", "limit_wrap", "tendon_eq", "tendon_eq2",
+)
+# links whose wake path is judged per kind in requirements()
+EQW_REQUIRED = ("connect_body", "connect_site", "weld_body", "weld_site", "joint")
+
+
+def eqwake_scene(seed):
+  """Zero-gravity scene of 4-7 separate trees, every one on its own row (no contacts), strongly damped so that a kicked
+  tree falls asleep again within a few tens of steps.  Links between the trees are constraints that are NOT there
+  when the trees fall asleep: connect / weld equalities given by bodies and by sites (sites and bodies of child
+  bodies too, so that body id != tree id != site id), joint equalities (two joints / one joint), connects to the
+  world, tendon equalities (one / two tendons), all switched through eq_active at run time; limited fixed and
+  spatial tendons (optionally wrapping a sphere / cylinder of the second tree) whose limit becomes active when one
+  tree is pushed.  Returns (xml, meta); meta['eq_kind'][e] / meta['ten_kind'][i] name the link family of each row."""
+  rng = np.random.default_rng(seed)
+  nt = int(rng.integers(4, 8))
+  tol = float(rng.choice([0.02, 0.05, 0.1]))
+  damp = float(rng.choice([10.0, 20.0, 30.0]))
+  dt = float(rng.choice([0.004, 0.005]))
+  feats = set()
+  bodies, trees = [], []
+  for k in range(nt):
+    kind = str(EQW_TREES[int(rng.integers(len(EQW_TREES)))])
+    feats.add("eqw_tree:" + kind)
+    y = 0.6 * k
+    x = float(rng.uniform(-0.1, 0.1))
+    sites = f'<site name="s{k}" pos=".05 0 0"/><site name="u{k}" pos="-.05 0 .02"/>'
+    wrapg = f'<geom name="g{k}" type="{"sphere" if rng.random() < 0.5 else "cylinder"}" size=".03 .05" mass=".2"/>'
+    if kind == "sx":
+      bodies.append(f'<body name="r{k}" pos="{x:.4g} {y:.4g} 0"><joint name="ja{k}" type="slide" axis="1 0 0"/><geom/>{wrapg}{sites}</body>')
+      trees.append({"bodies": [f"r{k}"], "joints": [f"ja{k}"]})
+    elif kind == "sxz":
+      bodies.append(
+        f'<body name="r{k}" pos="{x:.4g} {y:.4g} 0"><joint name="ja{k}" type="slide" axis="1 0 0"/><joint name="jb{k}" type="slide" axis="0 0 1"/><geom/>{wrapg}{sites}</body>'
+      )
+      trees.append({"bodies": [f"r{k}"], "joints": [f"ja{k}", f"jb{k}"]})
+    elif kind == "free":
+      bodies.append(f'<body name="r{k}" pos="{x:.4g} {y:.4g} 0"><joint name="f{k}" type="free" damping="{damp}"/><geom size=".1" mass="3"/>{wrapg}{sites}</body>')
+      trees.append({"bodies": [f"r{k}"], "joints": []})
+    elif kind == "hinge":
+      bodies.append(
+        f'<body name="r{k}" pos="{x:.4g} {y:.4g} 0"><joint name="ja{k}" type="hinge" axis="0 0 1" damping="{damp * 0.02:.4g}"/><geom pos=".1 0 0"/>'
+        f'<geom name="g{k}" type="sphere" size=".03" pos=".15 0 0" mass=".2"/><site name="s{k}" pos=".2 0 0"/><site name="u{k}" pos=".1 0 .05"/></body>'
+      )
+      trees.append({"bodies": [f"r{k}"], "joints": [f"ja{k}"]})
+    else:  # chain: the sites / wrap geom / second joint sit on the child body
+      bodies.append(
+        f'<body name="r{k}" pos="{x:.4g} {y:.4g} 0"><joint name="ja{k}" type="slide" axis="1 0 0"/><geom/>'
+        f'<body name="c{k}" pos=".15 0 0"><joint name="jb{k}" type="slide" axis="0 0 1"/><geom/>{wrapg}{sites}</body></body>'
+      )
+      trees.append({"bodies": [f"r{k}", f"c{k}"], "joints": [f"ja{k}", f"jb{k}"]})
+  eqs, tendons, eq_kind, ten_kind, spatial_slack = [], [], [], [], {}
+  with_teneq = rng.random() < 0.3  # MuJoCo refuses tendon equalities under sleeping: keep most scenes lock-step comparable
+  nl = int(rng.integers(3, 7))
+  for li in range(nl):
+    a, b = [int(v) for v in rng.choice(nt, size=2, replace=False)]
+    ta, tb = trees[a], trees[b]
+    lk = str(EQW_LINKS[int(rng.integers(len(EQW_LINKS)))])
+    if li < 2:  # every scene has at least two of the body/site equalities
+      lk = str(rng.choice(["connect_body", "connect_site", "weld_body", "weld_site"]))
+    act = "true" if rng.random() < 0.1 else "false"
+    name = f'name="e{len(eqs)}" active="{act}"'
+    ba, bb = str(rng.choice(ta["bodies"])), str(rng.choice(tb["bodies"]))
+    sa, sb = str(rng.choice([f"s{a}", f"u{a}"])), str(rng.choice([f"s{b}", f"u{b}"]))
+    jointed = bool(ta["joints"] and tb["joints"])
+    if lk == "connect_body":
+      eqs.append(f'<connect {name} body1="{ba}" body2="{bb}" anchor="{rng.uniform(-.1, .1):.3g} {rng.uniform(0, .3):.3g} 0"/>')
+    elif lk == "connect_site":
+      eqs.append(f'<connect {name} site1="{sa}" site2="{sb}"/>')
+    elif lk == "weld_body":
+      eqs.append(f'<weld {name} body1="{ba}" body2="{bb}"/>')
+    elif lk == "weld_site":
+      eqs.append(f'<weld {name} site1="{sa}" site2="{sb}"/>')
+    elif lk == "connect_world":
+      eqs.append(f'<connect {name} body1="{ba}" anchor="0 0 0"/>')
+    elif lk == "connect_world_site":
+      eqs.append(f'<connect {name} site1="{sa}" site2="sw"/>' if rng.random() < 0.5 else f'<weld {name} site1="sw" site2="{sa}"/>')
+    elif lk == "joint" and jointed:
+      eqs.append(f'<joint {name} joint1="{rng.choice(ta["joints"])}" joint2="{rng.choice(tb["joints"])}" polycoef="{rng.choice([0, 0.02])} {rng.choice([1, -1, 0.5])} 0 0 0"/>')
+    elif lk == "joint_single" and ta["joints"]:
+      eqs.append(f'<joint {name} joint1="{rng.choice(ta["joints"])}" polycoef="{rng.choice([0, 0.03])} 0 0 0 0"/>')
+    elif lk == "limit_fixed" and jointed:
+      r = float(rng.uniform(0.004, 0.03))
+      mg = float(rng.choice([0.0, 0.0, 0.01]))
+      tendons.append(
+        f'<fixed name="T{len(tendons)}" limited="true" range="{-r:.4g} {r:.4g}" margin="{mg}"><joint joint="{rng.choice(ta["joints"])}" coef="1"/><joint joint="{rng.choice(tb["joints"])}" coef="{rng.choice([-1, 1])}"/></fixed>'
+      )
+      ten_kind.append(lk)
+      continue
+    elif lk in ("limit_spatial", "limit_wrap"):
+      mid = f'<geom geom="g{b}"/>' if lk == "limit_wrap" else ""
+      end = (f"u{a}" if sa == f"s{a}" else f"s{a}") if lk == "limit_wrap" and rng.random() < 0.5 else sb  # wrap variant: tree b only through its geom
+      spatial_slack[len(tendons)] = (float(rng.uniform(0.003, 0.03)), float(rng.uniform(0.003, 0.03)))
+      mg = float(rng.choice([0.0, 0.0, 0.005]))
+      tendons.append(f'<spatial name="T{len(tendons)}" limited="true" range="0 9" margin="{mg}"><site site="{sa}"/>{mid}<site site="{end}"/></spatial>')
+      ten_kind.append(lk)
+      continue
+    elif lk in ("tendon_eq", "tendon_eq2") and jointed and with_teneq:
+      tendons.append(f'<fixed name="T{len(tendons)}"><joint joint="{rng.choice(ta["joints"])}" coef="1"/><joint joint="{rng.choice(tb["joints"])}" coef="1"/></fixed>')
+      ten_kind.append("eq_only")
+      t2 = ""
+      if lk == "tendon_eq2":
+        c = int(rng.integers(nt))
+        if trees[c]["joints"]:
+          tendons.append(f'<fixed name="T{len(tendons)}"><joint joint="{rng.choice(trees[c]["joints"])}" coef="1"/></fixed>')
+          ten_kind.append("eq_only")
+          t2 = f' tendon2="T{len(tendons) - 1}"'
+      eqs.append(f'<tendon {name} tendon1="T{len(tendons) - 1 - bool(t2)}"{t2}/>')
+    else:
+      continue
+    eq_kind.append(lk)
+  for lk in eq_kind + ten_kind:
+    feats.add("eqw_link:" + lk)
+  integ = str(rng.choice(["Euler", "Euler", "implicitfast"]))
+  jac = str(rng.choice(["dense", "sparse"]))
+  xml = [
+    f'<mujoco><option gravity="0 0 0" timestep="{dt}" sleep_tolerance="{tol}" integrator="{integ}" jacobian="{jac}" iterations="{ITER}"><flag sleep="enable"/></option>',
+    f'<default><joint damping="{damp}"/><geom type="sphere" size=".05" mass="1" contype="0" conaffinity="0"/><equality solref="{rng.choice([0.02, 0.04])} 1"/></default>',
+    '<worldbody><site name="sw" pos="0 -0.5 0"/>',
+  ]
+  xml += bodies
+  xml.append("</worldbody>")
+  if tendons:
+    xml.append("<tendon>" + "".join(tendons) + "</tendon>")
+  if eqs:
+    xml.append("<equality>" + "".join(eqs) + "</equality>")
+  xml.append("</mujoco>")
+  feats |= {f"integrator:{integ}", f"jacobian:{jac}"}
+  return "\n".join(xml), {"tol": tol, "features": sorted(feats), "eq_kind": eq_kind, "ten_kind": ten_kind, "spatial_slack": spatial_slack, "integrator": integ, "damp": damp}
+
+
+def build_eqwake(case, rec):
+  rng = np.random.default_rng(case["seed"] + 77)
+  xml, meta = eqwake_scene(case["seed"])
+  try:
+    mjm = mujoco.MjModel.from_xml_string(xml)
+  except Exception as e:  # noqa
+    rec.rejected = f"mujoco compile: {e}"[:200]
+    return None
+  # limits of the spatial tendons sit a few millimetres around the rest length
+  mjd = mujoco.MjData(mjm)
+  mujoco.mj_forward(mjm, mjd)
+  for i, (s_lo, s_hi) in meta["spatial_slack"].items():
+    L0 = float(mjd.ten_length[i])
+    mjm.tendon_range[i] = (max(L0 - s_lo, 0.0), L0 + s_hi)
+  try:
+    m = mw.put_model(mjm)
+  except (NotImplementedError, ValueError) as e:
+    rec.rejected = f"put_model: {e}"[:200]
+    return None
+  rec.cover("features", meta["features"])
+  return rng, xml, meta, mjm, m, meta["integrator"]
+
+
+def eqwake_states(rng, mjm, nworld):
+  sts = []
+  for w in range(nworld):
+    qvel = np.zeros(mjm.nv, np.float32)
+    if w:  # trees settle at different times
+      for t in range(mjm.ntree):
+        if rng.random() < 0.5:
+          a, n = int(mjm.tree_dofadr[t]), int(mjm.tree_dofnum[t])
+          qvel[a : a + n] = (rng.normal(size=n) * 0.4).astype(np.float32)
+    sts.append({"qpos": np.array(mjm.qpos0, dtype=np.float32), "qvel": qvel})
+  return sts
+
+
+def eqwake_events(rng, mjm, topo, meta, steps, nworld):
+  """Per-world schedule: equalities are switched on when both trees sleep (in cycles of their own), or shortly after
+  one of the two was kicked awake; trees on limited tendons are pushed so that the limit becomes active while the
+  other tree sleeps; active equalities are switched off again so that the pairs separate and the game restarts."""
+  ev = [dict() for _ in range(nworld)]
+  two = [e for e, (ty, ts) in enumerate(topo.eq_trees) if len(set(t for t in ts if t >= 0)) >= 2]
+  lim = [i for i in range(mjm.ntendon) if mjm.tendon_limited[i] and len(topo.ten_trees[i]) >= 2]
+
+  def kick(w, t, tr, scale):
+    n = len(topo.tree_dofs[tr])
+    v = (rng.normal(size=n) * scale).astype(np.float32)
+    v[0] = np.float32(scale * rng.choice([-1.0, 1.0]) * rng.uniform(0.7, 1.5))
+    ev[w].setdefault(t, []).append(("vel", tr, v.tolist()))
+
+  for w in range(nworld):
+    active = np.array(mjm.eq_active0, dtype=bool).copy()
+    t = int(rng.integers(16, 40))
+    while t < steps - 5:
+      kind = str(rng.choice(["eq_on", "eq_on", "kick_eq", "kick_eq", "kick_limit", "kick_limit", "kick", "eq_off", "force", "eq_any"]))
+      off_two = [e for e in two if not active[e]]
+      if kind == "eq_on" and off_two:
+        e = int(rng.choice(off_two))
+        ev[w].setdefault(t, []).append(("eq", e))
+        active[e] = True
+      elif kind == "kick_eq" and off_two:
+        e = int(rng.choice(off_two))
+        trs = sorted(set(x for x in topo.eq_trees[e][1] if x >= 0))
+        kick(w, t, int(rng.choice(trs)), float(rng.choice([0.3, 1.0])))
+        ev[w].setdefault(t + int(rng.integers(0, 7)), []).append(("eq", e))
+        active[e] = True
+      elif kind == "kick_limit" and lim:
+        i = int(rng.choice(lim))
+        # damped travel ~ v / damping: a few centimetres, more than the slack of the limit
+        kick(w, t, int(rng.choice(topo.ten_trees[i])), float(meta["damp"]) * float(rng.choice([0.02, 0.05, 0.1])))
+      elif kind == "kick":
+        kick(w, t, int(rng.integers(mjm.ntree)), float(rng.choice([0.5 * float(mjm.opt.sleep_tolerance), 0.5, 2.0])))
+      elif kind == "eq_off" and active.any():
+        e = int(rng.choice(np.nonzero(active)[0]))
+        ev[w].setdefault(t, []).append(("eq", e))
+        active[e] = False
+      elif kind == "eq_any" and mjm.neq:
+        e = int(rng.integers(mjm.neq))
+        ev[w].setdefault(t, []).append(("eq", e))
+        active[e] = not active[e]
+      elif kind == "force":
+        tr = int(rng.integers(mjm.ntree))
+        dur = int(rng.integers(1, 6))
+        if rng.random() < 0.5:
+          b = int(rng.choice(topo.tree_bodies[tr]))
+          f = (rng.normal(size=6) * np.array([10, 10, 10, 0.3, 0.3, 0.3])).astype(np.float32)
+          ev[w].setdefault(t, []).append(("xfrc", b, f.tolist()))
+          ev[w].setdefault(t + dur, []).append(("xfrc", b, [0.0] * 6))
+        else:
+          dof = int(rng.choice(topo.tree_dofs[tr]))
+          ev[w].setdefault(t, []).append(("qfrc", dof, float(np.float32(rng.normal() * 5))))
+          ev[w].setdefault(t + dur, []).append(("qfrc", dof, 0.0))
+      t += int(rng.integers(22, 55))
+  return ev
+
+
+def eqwake_observe(rec, topo, meta, pre, mid, post, w, split):
+  """Coverage of the input class: which run-time link met which asleep/awake configuration before the step."""
+  A0 = pre["tree_asleep"][w]
+  S0 = A0 >= 0
+  cyc = {t: c for c in _isl.cycles_of(A0)[0] for t in c}
+  Sa = (mid["tree_asleep"][w] >= 0) if split else (post["tree_asleep"][w] >= 0)
+  for e, (ty, ts) in enumerate(topo.eq_trees):
+    if not pre["eq_active"][w][e]:
+      continue
+    tt = sorted(set(t for t in ts if t >= 0))
+    if len(tt) < 2:
+      if tt and S0[tt[0]]:
+        rec.cover(f"eqw:{meta['eq_kind'][e]}:active_on_sleeping_single_tree", 1)
+      continue
+    st = [bool(S0[t]) for t in tt]
+    if any(st) and not all(st):
+      rec.cover(f"eqw:{meta['eq_kind'][e]}:one_asleep_one_awake", 1)
+      if not any(Sa[t] for t in tt):
+        rec.cover(f"eqw:{meta['eq_kind'][e]}:woke", 1)
+    elif all(st) and len(set(cyc.get(t) for t in tt)) > 1:
+      rec.cover(f"eqw:{meta['eq_kind'][e]}:asleep_in_two_cycles", 1)
+      if not any(Sa[t] for t in tt):
+        rec.cover(f"eqw:{meta['eq_kind'][e]}:woke", 1)
+  if split:
+    for i, ts in enumerate(topo.ten_trees):
+      if len(ts) < 2 or not topo.mjm.tendon_limited[i]:
+        continue
+      L = float(mid["ten_length"][w][i])
+      lo, hi = topo.mjm.tendon_range[i]
+      mg = float(topo.mjm.tendon_margin[i])
+      if (L - lo < mg or hi - L < mg) and any(S0[t] for t in ts) and not all(S0[t] for t in ts):
+        rec.cover(f"eqw:{meta['ten_kind'][i]}:limit_active_one_asleep_one_awake", 1)
+        if not any(Sa[t] for t in ts):
+          rec.cover(f"eqw:{meta['ten_kind'][i]}:woke", 1)
 
 
 # ------------------------------------------------------------------------------------------ model helpers
